@@ -921,6 +921,14 @@ func (env *SpecEnv) call(x *SExpr) (sval, error) {
 		}
 		e.famSort["Mutex.locked"] = arraySort(SInt, SBool)
 		return sval{sel(e.family(env.cur, "Mutex.locked", arraySort(SInt, SBool)), m.t, SBool), types.Typ[types.Bool]}, nil
+	case "atomicval":
+		// ghost: the value last stored in a sync/atomic.Value (nil before the first Store)
+		v, err := env.eval(args[0])
+		if err != nil {
+			return sval{}, err
+		}
+		e.famSort["AtomicValue"] = arraySort(SInt, SIface)
+		return sval{sel(e.family(env.cur, "AtomicValue", arraySort(SInt, SIface)), v.t, SIface), types.NewInterfaceType(nil, nil)}, nil
 	case "rsrc", "rpos":
 		// ghost state of a strings.Reader: the string it reads and how far it is
 		r, err := env.eval(args[0])
